@@ -22,6 +22,7 @@ EXPLANATION = (
     "to the NLSE solution, finiteness.")
 EXPLANATION += (' Added after the audit wave: C08.8 the first adaptive step is bounded by the fibre length before it is used (a weak field in a lossy fibre otherwise steps past the end: negative remainder, exp(+alpha*h/2) overflow, NaN output; an all-zero field never returned).')
 EXPLANATION += (' Second audit wave: C08.6 the dB-to-neper constant equals 10/ln(10) to 1e-9 (constants written with log(10) are evaluated by forms.const_float).')
+EXPLANATION += (" Wave 14: C08.10 the adaptive step is sized by the total power over the polarisation rows - no mean / average over the rows of atleast_2d(A) in the value assigned to the step variable (an empty second polarisation must not change the steps). C08.9 the in-place clause of C14 for FIBER's parameters.")
 TRUSTED = ["numpy.fft", "Karr's affine-relation domain as implemented in ocv/karr.py", "C07.3 (D_op form)"]
 
 
@@ -272,7 +273,7 @@ def _step_from_ast(fi, stmt, dop_name="D_op"):
     return None
 
 
-def rule_rank_guard(ctx, fi):
+def rule_rank_guard(ctx, fi, rule="C08.3"):
     """constant subscripts on the field variable used as polarisation selectors need a 2-pol guard"""
     field_vars = set()
     for n in body_nodes(fi):
@@ -287,16 +288,16 @@ def rule_rank_guard(ctx, fi):
             if isinstance(idx, ast.Constant) and isinstance(idx.value, int):
                 hits += 1
                 if _two_pol_guarded(n):
-                    ctx.holds("C08.3", fi, n, f"{src_of(n)} under a two-polarisation guard", "row selection only when the field has two rows")
+                    ctx.holds(rule, fi, n, f"{src_of(n)} under a two-polarisation guard", "row selection only when the field has two rows")
                 else:
                     st = n
                     while not isinstance(st, ast.stmt):
                         st = st._parent
-                    ctx.violation("C08.3", fi, n, f"{src_of(n)} in `{src_of(st)[:160]}`",
+                    ctx.violation(rule, fi, n, f"{src_of(n)} in `{src_of(st)[:160]}`",
                                   f"`{src_of(n)}` selects a polarisation row only if the field is two-dimensional; for a one-polarisation "
                                   "signal (rank 1) it selects a *sample*, so the step size is computed from two samples (division by zero when they vanish)")
     if hits == 0:
-        ctx.holds("C08.3", fi, fi.node, "no constant-index polarisation selection on the field", "total power computed rank-generically")
+        ctx.holds(rule, fi, fi.node, "no constant-index polarisation selection on the field", "total power computed rank-generically")
 
 
 def _two_pol_guarded(n):
@@ -580,6 +581,29 @@ def rule_first_step(ctx, fi, it):
               "the length, the final 'remainder' step is negative and the field is propagated backwards through the loss (overflow: non-finite output)")
 
 
+def rule_total_power(ctx, fi, it):
+    """C08.10: a one-polarisation signal propagates exactly like the x polarisation of a two-polarisation signal whose y is empty: the
+    adaptive step is sized by the peak of the TOTAL power - the sum over the polarisation rows.  An average over the rows (np.mean over
+    axis 0 of the two-row field) halves it when a second, empty row is present: every step doubles and the two runs differ"""
+    hname = step_variable(fi, it)
+    vals = [(val, stmt) for f_, stmt, name, val, conds, depth in it.assign_log if depth == 0 and name == hname and isinstance(val, Form)] if hname else []
+    seen = 0
+    for val, stmt in vals:
+        for a in val.atoms():
+            if a[0] == "fn" and a[1].split(".")[-1] in ("mean", "average", "nanmean", "median") and a[2] and isinstance(a[2][0], Form) and \
+                    any(x[0] == "fn" and x[1].split(".")[-1] == "atleast_2d" for x in a[2][0].atoms()):
+                seen += 1
+                ctx.violation("C08.10", fi, stmt, f"FIBER: step sized by {a[1].split('.')[-1]}(|A|^2) over the polarisation rows",
+                              "the power that sizes the adaptive step is averaged over the rows of the field instead of summed: with an empty second polarisation it is half the power of "
+                              "the same field given as one polarisation, every step is twice as long and the x polarisation no longer propagates like the one-polarisation signal "
+                              "(relative difference 2.3e-2 at 10 rad of nonlinear phase)")
+    if not seen:
+        if vals:
+            ctx.holds("C08.10", fi, vals[0][1], "FIBER: step sized by the total power over the polarisation rows", "no average over the rows of the field in the step size")
+        else:
+            ctx.unknown("C08.10", fi, fi.node, "FIBER: step size", "no assignment to the step variable")
+
+
 def run(ctx):
     pkg = ctx.pkg
     fi = pkg.func("devices.FIBER")
@@ -595,6 +619,7 @@ def run(ctx):
     rule_dop(ctx, fi, it, "C08.6")       # the scheme converges to the NLSE only with the NLSE's own linear operator
     rule_returned_field(ctx, fi, itn, "C08.7")
     rule_first_step(ctx, fi, itn)
+    rule_total_power(ctx, fi, itn)
     check_late_binding(ctx, "C08.5", ["devices.FIBER"])
     # C08.9: the energy law is stated per call: FIBER called twice with the same arguments gives the same output.  A parameter
     # rescaled in place (alpha *= ln(10)/10 on a 0-d or one-element array the caller keeps) makes the second call a different fibre
